@@ -60,12 +60,17 @@ def main():
         ok = ("FAILED" not in o) and ("error:" not in o) and ("error[" not in o) and ("test result: ok" in o)
         meta["confirmed"]["suite_passes_with_change"] = ok
         meta["confirmed"]["suite_output"] = o[-1500:]
+        feat = " --features uuid" if prop == "C18" else ""
+        if feat:
+            rcf, of = sh("cargo test --workspace --no-fail-fast --offline --features uuid 2>&1 | grep -E '^test result|FAILED|^error' ", cwd=wt, env=env)
+            okf = ("FAILED" not in of) and ("error:" not in of) and ("error[" not in of) and ("test result: ok" in of)
+            meta["confirmed"]["suite_passes_with_change"] = meta["confirmed"]["suite_passes_with_change"] and okf
         shutil.copy(demo, os.path.join(wt, "tests", "seed_demo.rs"))
-        rc1, o1 = sh("cargo test --offline --test seed_demo 2>&1 | tail -15", cwd=wt, env=env)
-        fails_with = "test result: FAILED" in o1 or "panicked" in o1
+        rc1, o1 = sh("cargo test --offline --test seed_demo%s 2>&1 | tail -25" % feat, cwd=wt, env=env)
+        fails_with = "test result: FAILED" in o1 or "panicked" in o1 or "could not compile" in o1 or "error[E" in o1
         meta["confirmed"]["demo_fails_with_change"] = fails_with
         sh("git checkout -- src", cwd=wt)
-        rc2, o2 = sh("cargo test --offline --test seed_demo 2>&1 | tail -8", cwd=wt, env=env)
+        rc2, o2 = sh("cargo test --offline --test seed_demo%s 2>&1 | tail -8" % feat, cwd=wt, env=env)
         passes_without = "test result: ok" in o2 and "FAILED" not in o2
         meta["confirmed"]["demo_passes_without_change"] = passes_without
         meta["confirmed"]["demo_output_with_change"] = o1[-1200:]
